@@ -14,8 +14,6 @@ import (
 	"net"
 	"net/http"
 	"net/http/httptest"
-	"os"
-	"runtime"
 	"runtime/debug"
 	"strings"
 	"sync"
@@ -61,50 +59,6 @@ func (h *safeHandler) firstPanic() string {
 		return ""
 	}
 	return h.panics[0]
-}
-
-// wedgeWatch guards a test whose cases run in synctest bubbles: a goroutine of the code under test that blocks
-// on a lock (not a channel or timer) stops virtual time, so an in-bubble timeout can never fire and the case would
-// hang for ever. The watchdog runs OUTSIDE the bubbles in real time; every case ticks it. No progress for two
-// minutes means some request or shutdown step never returned: the process is wedged, which is what C15 forbids.
-func wedgeWatch(name string) (tick func(what string), stop func()) {
-	var mu sync.Mutex
-	seq, lastWhat := 0, "start"
-	quit := make(chan struct{})
-	go func() {
-		t := time.NewTicker(2 * time.Second)
-		defer t.Stop()
-		seen, since := -1, time.Now() // real time: this goroutine lives outside the bubbles
-		for {
-			select {
-			case <-quit:
-				return
-			case <-t.C:
-				mu.Lock()
-				cur, what := seq, lastWhat
-				mu.Unlock()
-				if cur != seen {
-					seen, since = cur, time.Now()
-					continue
-				}
-				if idle := time.Since(since); idle > 75*time.Second {
-					buf := make([]byte, 1<<20)
-					n := runtime.Stack(buf, true)
-					fmt.Printf("--- FAIL: %s\n    WEDGE: no progress for %s after: %s\n    a request, reply or shutdown step never returned (a goroutine holds a lock for ever); goroutines:\n%s\n", name, idle.Round(time.Second), what, buf[:n])
-					os.Exit(1)
-				}
-			}
-		}
-	}()
-	return func(what string) {
-			// called from inside bubbles (fake clock): only count
-			mu.Lock()
-			seq++
-			lastWhat = what
-			mu.Unlock()
-		}, func() {
-			close(quit)
-		}
 }
 
 // ---------------------------------------------------------------------------
@@ -219,7 +173,7 @@ func genHostileCall(rt *rapid.T) (string, []json.RawMessage) {
 			who = walletIdent(0)
 			id = who.addr
 		}
-		n := time.Now().UnixNano()
+		n := c15Nonce(id) // the identity's own next nonce: the signed request is a genuine one of that identity
 		var args []interface{}
 		for _, p := range params[3:] {
 			args = append(args, json.RawMessage(p))
@@ -244,8 +198,12 @@ func genHostileCall(rt *rapid.T) (string, []json.RawMessage) {
 	return method, params
 }
 
+// c15MinBalance: the minimum balance of the next C15 session (drawn by the structured test: with 0 a billed client
+// is cut off, which takes the pool through its low-balance / disconnect path).
+var c15MinBalance int64 = -1000000
+
 func c15Session(rt interface{ Fatalf(string, ...interface{}) }) (*session, *safeHandler) {
-	cfg := sessCfg{Driver: "memory", Price: big.NewInt(1000), Interval: time.Minute, Min: big.NewInt(-1000000)}
+	cfg := sessCfg{Driver: "memory", Price: big.NewInt(1000), Interval: time.Minute, Min: big.NewInt(c15MinBalance)}
 	s := newSession(rt, cfg, 4)
 	sh := &safeHandler{Handler: s.srv}
 	// reconnect helper: all connections of this session go through the panic-recording handler
@@ -311,8 +269,16 @@ func (rc *rawConn) close() {
 
 var c15Tick = func(string) {}
 
+// c15Nonce gives the nonce of correctly signed hostile requests; the structured case points it at the session's
+// per-identity nonce sequence so that the honest requests of the same identity made afterwards are not replays.
+var c15Nonce = func(string) int64 { return time.Now().UnixNano() }
+
 func c15StructuredCase(rt *rapid.T, rec *vt.Rec) {
+	c15MinBalance = rapid.SampledFrom([]int64{-1000000, -1000000, 0}).Draw(rt, "minBalance")
+	defer func() { c15MinBalance = -1000000 }()
 	s, sh := c15Session(rt)
+	c15Nonce = s.nonce
+	defer func() { c15Nonce = func(string) int64 { return time.Now().UnixNano() } }()
 	defer func() {
 		c15Tick("closing every connection and the store after the requests above")
 		s.close()
@@ -327,6 +293,7 @@ func c15StructuredCase(rt *rapid.T, rec *vt.Rec) {
 	if err := s.connect(1, cliConn, false, "geth", ""); err != nil {
 		rt.Fatalf("client connect: %v", err)
 	}
+	time.Sleep(time.Duration(rapid.Int64Range(0, int64(90*time.Second)).Draw(rt, "age")))
 	rc := dialRaw(sh, s.pool.CloseRemote)
 	defer rc.close()
 	_ = synctest.Wait
@@ -420,9 +387,8 @@ func compactJSON(s string) string {
 func TestC15Structured(t *testing.T) {
 	rec := vt.For("C15")
 	rec.Rule("T1 structured: messages of valid JSON-RPC shape sent over a connection to the production registration (pool with a live host and a client, payment, status): every documented method with correctly TYPED but hostile values (signatures of every length and alphabet, node ids / wallets of every length, extreme nonces and counts, hostile node URIs and peer descriptions, sometimes correctly signed), plus arity/type damage and unknown methods, ids of every JSON type; oracle: no panic in any goroutine (panic-recording handler), exactly one reply per request within 30 virtual seconds carrying the request's id and an error or a result, the sending and another connection still answer vipnode_ping, a request refused by verification changes nothing; non-trivial = the message reached a registered method; distinct by request texts")
-	tick, stop := wedgeWatch("TestC15Structured")
-	defer stop()
-	c15Tick = tick
+	defer vt.Watch("TestC15Structured", 75*time.Second)()
+	c15Tick = vt.Tick
 	defer func() { c15Tick = func(string) {} }()
 	rapid.Check(t, func(rt *rapid.T) {
 		rapid.SyncTest(rt, func(rt *rapid.T) { c15StructuredCase(rt, rec) })
@@ -568,6 +534,7 @@ func c15RawCase(rt *rapid.T, rec *vt.Rec) {
 }
 
 func TestC15RawBytes(t *testing.T) {
+	defer vt.Watch("TestC15RawBytes", 120*time.Second)()
 	rec := vt.For("C15")
 	rec.Rule("T2 raw: generated byte strings (random bytes, truncated/garbled JSON, deep nesting, floods of unsolicited replies, well-formed hostile requests, duplicates), written in chunks of 1 / 7 / all bytes into the real IOCodec + Remote.Serve of a pool connection (net.Pipe, virtual time); oracle: no panic, another connection still answers vipnode_ping, a well-formed request never ends its own connection, gets exactly one reply per request, and the connection then still answers; undecodable JSON may end that one connection; distinct by bytes")
 	rapid.Check(t, func(rt *rapid.T) {
@@ -592,6 +559,9 @@ var hostileReplies = []string{
 	`{"id":%ID,"jsonrpc":"2.0","result":{"peers":[{"ID":5}],"invalid_peers":[null,"",":","enode://"],"active_peers":["enode://","%zz",""],"balance":{"credit":"1e999","deposit":-1}}}`,
 	`{"id":%ID,"jsonrpc":"2.0","result":{"peers":[{"ID":"x","uri":"enode://[::1"},{"ID":"y","uri":""}],"invalid_peers":["` + strings.Repeat("f", 128) + `"],"active_peers":["enode://` + strings.Repeat("f", 128) + `@1.2.3.4:1"]}}`,
 	`{"id":%ID,"id":%ID,"jsonrpc":"2.0","result":true,"result":false}`,
+	`{"id":%ID,"jsonrpc":"2.0","result":{"balance":null,"invalid_peers":[],"active_peers":["http://host/x","%zz","enode://id@1.2.3.4:notaport",":","enode://[::1","\u0000"],"latest_block_number":1}}`,
+	`{"id":%ID,"jsonrpc":"2.0","result":{"balance":{"credit":5,"deposit":0},"invalid_peers":["%zz","http://x/y","enode://a@b:c:d",""],"active_peers":[],"latest_block_number":18446744073709551615}}`,
+	`{"id":%ID,"jsonrpc":"2.0","result":{"invalid_peers":null,"active_peers":null,"peers":[{"ID":"","uri":"%zz"},{"ID":"q","uri":"http://h"}],"pool_version":"v","message":"m"}}`,
 	`{"id":%ID,"jsonrpc":"1.0","result":{"balance":{"credit":` + strings.Repeat("9", 5000) + `}}}`,
 }
 
